@@ -24,6 +24,7 @@ RULE = (
 )
 RULE += '; the class under test may be a derived class that inherits all generated attributes (a base-class instance in a Self position does not conform then)'
 RULE += '; enumerated: a generic class forwarding its parameter to another generic State x every specialisation x boxes of every specialisation'
+RULE += '; protocol conformance may differ between instances of one class; a derived class may re-declare the first attribute'
 LEVEL_TEXT = (
     "Differential testing against an independent three-valued conformance relation over the harness's own term AST: "
     "construction must succeed iff every supplied-or-defaulted value conforms, and every stored attribute must be the "
@@ -222,6 +223,8 @@ def run_case(case) -> Outcome:
         classes.append("same-named-unrelated-classes")
     if base is not None:
         classes.append("derived-class-inheriting-the-attributes")
+        if cls.get("derived") == "redeclare":
+            classes.append("derived-class-redeclares-an-attribute")
         if any(v is not None and _has_kind(v, {"baseinst"}) for v in case["args"].values()):
             classes.append("base-instance-where-Self-is-expected")
     for kname in ("alias_param", "alias", "self", "union", "literal", "generic", "tuple_fixed", "set", "protocol"):
@@ -323,6 +326,8 @@ def gen_class(draw, broken_defaults=True, min_attrs=1):
     namesake = draw(st.integers(0, 5)) == 0  # same-named unrelated State classes exist (see run_case)
     # the class under test is a derived class inheriting all these attributes (more often when one of them is Self-typed)
     derived = (not generic) and not namesake and draw(st.integers(0, 2 if allow_self else 7)) == 0
+    if derived and draw(st.booleans()):
+        derived = "redeclare"  # ... and re-declares the first attribute (the base class annotates it differently)
     return {"generic": generic, "targ": targ, "attrs": attrs, "future": future, "namesake": namesake, "derived": derived}, allow_self
 
 
@@ -431,6 +436,20 @@ def enumerate_cases(tier):
             if v["v"] == "missing":
                 continue
             yield {"cls": cls, "args": {"a0": v}, "broken_depth": 1}
+    # conformance to a runtime-checkable protocol is decided per INSTANCE: a conforming instance followed by a non-conforming
+    # one of the same class (and the other way round), through one validator
+    pr = TT.T("protocol")
+    yes, no = TT.V("maybeimpl", ok=True), TT.V("maybeimpl", ok=False)
+    for t, mk in (
+        (TT.T("seq", of=pr), lambda a, b: TT.V("list", items=[a, b])),
+        (TT.T("tuple_var", of=pr), lambda a, b: TT.V("tuple", items=[a, b])),
+        (TT.T("tuple_fixed", items=[pr, pr]), lambda a, b: TT.V("tuple", items=[a, b])),
+        (TT.T("map", k=TT.T("str"), v=pr), lambda a, b: TT.V("dict", items=[[TT.V("str", x="a"), a], [TT.V("str", x="b"), b]])),
+        (TT.T("seq", of=TT.T("union", alts=[TT.T("int"), pr])), lambda a, b: TT.V("list", items=[a, TT.V("int", x=1), b])),
+    ):
+        cls = {"generic": False, "targ": None, "attrs": [{"name": "a0", "term": t, "default": None}]}
+        for a, b in ((yes, no), (no, yes), (yes, yes), (no, no)):
+            yield {"cls": cls, "args": {"a0": mk(a, b)}, "broken_depth": 1}
     # a GENERIC class that forwards its own parameter to another generic State (directly and inside containers), every
     # specialisation of it against every pool value plus boxes of every specialisation: `GBox[T]` means GBox[<the argument>]
     boxes = [TT.V("gbox", arg=a, val=TT.gen_plain_value(a), items=[]) for a in TT.TARGS if TT.gen_plain_value(a) is not None]
